@@ -371,7 +371,21 @@ _CACHE = {}
 def load(features=("async", "http"), release=False, repo=None):
     key = (tuple(sorted(features)), release, repo or REPO)
     if key not in _CACHE:
-        _CACHE[key] = Facts(extract(features, release, repo))
+        doc = extract(features, release, repo)
+        f = Facts(doc)
+        # private items are looked up by effect, not by name (roles.py): a renamed helper is mapped back to the
+        # name the rules use; on the pinned tree nothing is renamed
+        import roles
+        try:
+            ren = roles.discover(f)
+        except Exception as e:      # discovery must never take a check down; without it the rules fail closed as before
+            ren = {}
+            f.role_discovery_error = repr(e)
+        if ren:
+            f = Facts(roles.apply(doc, ren))
+        f.renames = ren
+        f.params_renamed = roles.canon_params(f)
+        _CACHE[key] = f
     return _CACHE[key]
 
 
